@@ -5,10 +5,10 @@
    Sealer when task `root` of graph h is submitted with job directory jd; esc = how
    ConfigWalkContext.push turns a key into a path segment: esc_fix is the repaired code
    (fixes/C17-1.diff), esc_prefix the code of the pinned commit (keys used as they are).
-   all_unamb h: below every configuration, no two different edges (argument name / list index /
+   all_unamb seal_edges h: below every configuration, no two different edges (argument name / list index /
    dict key / pre-task index ...) leading to unsealed configurations carry keys of which one
    is a prefix of the other, and none carries no key (decidable: unambb).                  *)
-From Coq Require Import NArith List.
+From Coq Require Import NArith List Permutation.
 From XV Require Import model.Walk model.GenPath proofs.Walk_lemmas proofs.GenPath_lemmas.
 Import ListNotations.
 
@@ -23,7 +23,7 @@ Theorem C17_walk_correct : forall h edges_of cut root,
 Proof. exact walk_correct. Qed.
 Print Assumptions C17_walk_correct.
 
-Theorem C17_total : forall esc h gens root jd, exists l, generated esc h gens root jd = Some l.
+Theorem C17_total : forall esc SE h gens root jd, exists l, generated esc SE h gens root jd = Some l.
 Proof. exact generated_total. Qed.
 Print Assumptions C17_total.
 
@@ -31,7 +31,7 @@ Print Assumptions C17_total.
    not "." or "..") *)
 Theorem C17_inside_jobdir : forall h gens root jd l e,
   (forall c af, In c gens -> In af c -> plain (snd af) = true) ->
-  generated esc_fix h gens root jd = Some l -> In e l ->
+  generated esc_fix seal_edges h gens root jd = Some l -> In e l ->
   exists comps, comps <> [] /\ Forall (fun c => plain c = true) comps /\
     g_path e = {| p_root := p_root jd; p_parts := p_parts jd ++ comps |}.
 Proof. exact inside_jobdir_fix. Qed.
@@ -39,52 +39,75 @@ Print Assumptions C17_inside_jobdir.
 
 (* distinct (object, file name) pairs receive distinct paths *)
 Theorem C17_distinct : forall h gens root jd l e1 e2,
-  all_unamb h ->
+  all_unamb seal_edges h ->
   (forall c af, In c gens -> In af c -> plain (snd af) = true) ->
-  generated esc_fix h gens root jd = Some l -> In e1 l -> In e2 l ->
+  generated esc_fix seal_edges h gens root jd = Some l -> In e1 l -> In e2 l ->
   (g_node e1, g_file e1) <> (g_node e2, g_file e2) -> g_path e1 <> g_path e2.
 Proof. exact distinct_fix. Qed.
 Print Assumptions C17_distinct.
 
 (* the hypothesis of C17_distinct is decidable *)
-Theorem C17_unamb_decidable : forall h, unambb h = true -> all_unamb h.
+Theorem C17_unamb_decidable : forall SE h, unambb SE h = true -> all_unamb SE h.
 Proof. exact unambb_sound. Qed.
 Print Assumptions C17_unamb_decidable.
 
 (* ... and it holds for every graph with well-formed names: argument names pairwise distinct and
    not "__pre_tasks__"/"__init_tasks__", keys of every dict pairwise distinct (names_wf), the task of
    a configuration sealed by its own submit (task_targets_cut) - str(i) is injective *)
-Theorem C17_names_wf_unamb : forall h, names_wf h -> task_targets_cut h -> all_unamb h.
+Theorem C17_names_wf_unamb : forall h, names_wf h -> task_targets_cut h -> all_unamb seal_edges h.
 Proof. exact names_wf_unamb. Qed.
 Print Assumptions C17_names_wf_unamb.
 
 Theorem C17_distinct_wf : forall h gens root jd l e1 e2,
   names_wf h -> task_targets_cut h ->
   (forall c af, In c gens -> In af c -> plain (snd af) = true) ->
-  generated esc_fix h gens root jd = Some l -> In e1 l -> In e2 l ->
+  generated esc_fix seal_edges h gens root jd = Some l -> In e1 l -> In e2 l ->
   (g_node e1, g_file e1) <> (g_node e2, g_file e2) -> g_path e1 <> g_path e2.
 Proof. exact distinct_wf. Qed.
 Print Assumptions C17_distinct_wf.
 
 (* interpretation fixed in DESIGN.md: one object, one file name declared twice: one path *)
-Theorem C17_same_object_same_name : forall esc h gens root jd l e1 e2,
-  generated esc h gens root jd = Some l -> In e1 l -> In e2 l ->
+Theorem C17_same_object_same_name : forall esc SE h gens root jd l e1 e2,
+  generated esc SE h gens root jd = Some l -> In e1 l -> In e2 l ->
   g_node e1 = g_node e2 -> g_file e1 = g_file e2 -> g_path e1 = g_path e2.
 Proof. exact same_object_same_name. Qed.
 Print Assumptions C17_same_object_same_name.
 
 (* reproducible: the result is a function of the graph and the job directory: no dependence
    on the fuel, and the layout below the job directory depends on the graph only          *)
-Theorem C17_reproducible : forall esc h gens fuel root jd l,
-  generated_fuel esc h gens fuel root jd = Some l -> generated esc h gens root jd = Some l.
+Theorem C17_reproducible : forall esc SE h gens fuel root jd l,
+  generated_fuel esc SE h gens fuel root jd = Some l -> generated esc SE h gens root jd = Some l.
 Proof. exact reproducible_fuel. Qed.
 Print Assumptions C17_reproducible.
 
 Theorem C17_reproducible_layout : forall h gens root,
   (forall c af, In c gens -> In af c -> plain (snd af) = true) ->
-  exists rels, forall jd, generated esc_fix h gens root jd = Some (map (place jd) rels).
+  exists rels, forall jd, generated esc_fix seal_edges h gens root jd = Some (map (place jd) rels).
 Proof. exact reproducible_layout_fix. Qed.
 Print Assumptions C17_reproducible_layout.
+
+(* "the same configuration": the identifier sorts the entries of a dict, so two insertion orders
+   are one configuration, one job directory.  With sorted visiting the edges below a dict do not
+   depend on the insertion order, and the generated values depend on the graph only through
+   these edges, the classes and the sealed flags *)
+Theorem C17_dict_order_irrelevant : forall rel l l',
+  Permutation l l' -> NoDup (map fst l) ->
+  edges_value_s rel (VDict l) = edges_value_s rel (VDict l').
+Proof. exact dict_order_irrelevant. Qed.
+Print Assumptions C17_dict_order_irrelevant.
+
+Theorem C17_generated_sim : forall esc SE h h' gens root jd,
+  heap_sim SE h h' -> generated esc SE h gens root jd = generated esc SE h' gens root jd.
+Proof. exact generated_sim. Qed.
+Print Assumptions C17_generated_sim.
+
+(* before fixes/C17-2.diff: d = {"a": s, "b": s} and d = {"b": s, "a": s} give s two different paths *)
+Theorem C17_dictorder_insertion_refuted :
+  exists h h' gens root jd,
+    heap_sim seal_edges h h' /\
+    generated esc_fix seal_edges_insertion h gens root jd <> generated esc_fix seal_edges_insertion h' gens root jd.
+Proof. exact dictorder_insertion_refuted. Qed.
+Print Assumptions C17_dictorder_insertion_refuted.
 
 (* the repaired push maps every key to one plain segment, injectively *)
 Theorem C17_esc_fix_plain_injective :
@@ -94,18 +117,18 @@ Print Assumptions C17_esc_fix_plain_injective.
 
 (* the code of the pinned commit: same conclusions when every key gives a plain segment *)
 Theorem C17_inside_jobdir_plainkeys : forall h gens,
-  keys_ok esc_prefix h ->
+  keys_ok esc_prefix seal_edges h ->
   (forall c af, In c gens -> In af c -> plain (snd af) = true) ->
-  forall root jd l e, generated esc_prefix h gens root jd = Some l -> In e l ->
+  forall root jd l e, generated esc_prefix seal_edges h gens root jd = Some l -> In e l ->
   exists comps, comps <> [] /\ Forall (fun c => plain c = true) comps /\
     g_path e = {| p_root := p_root jd; p_parts := p_parts jd ++ comps |}.
-Proof. exact (inside_jobdir esc_prefix). Qed.
+Proof. exact (inside_jobdir esc_prefix seal_edges). Qed.
 Print Assumptions C17_inside_jobdir_plainkeys.
 
 Theorem C17_distinct_plainkeys : forall h gens root jd l e1 e2,
-  all_unamb h -> keys_ok esc_prefix h ->
+  all_unamb seal_edges h -> keys_ok esc_prefix seal_edges h ->
   (forall c af, In c gens -> In af c -> plain (snd af) = true) ->
-  generated esc_prefix h gens root jd = Some l -> In e1 l -> In e2 l ->
+  generated esc_prefix seal_edges h gens root jd = Some l -> In e1 l -> In e2 l ->
   (g_node e1, g_file e1) <> (g_node e2, g_file e2) -> g_path e1 <> g_path e2.
 Proof. exact distinct_plainkeys. Qed.
 Print Assumptions C17_distinct_plainkeys.
@@ -114,14 +137,14 @@ Print Assumptions C17_distinct_plainkeys.
    dict key "/abs" (path outside the job directory)                                       *)
 Theorem C17_distinct_prefix_refuted :
   exists h gens root jd l e1 e2,
-    all_unamb h /\ files_ok gens /\ generated esc_prefix h gens root jd = Some l /\
+    all_unamb seal_edges h /\ files_ok gens /\ generated esc_prefix seal_edges h gens root jd = Some l /\
     In e1 l /\ In e2 l /\ g_node e1 <> g_node e2 /\ g_path e1 = g_path e2.
 Proof. exact distinct_prefix_refuted. Qed.
 Print Assumptions C17_distinct_prefix_refuted.
 
 Theorem C17_inside_prefix_refuted :
   exists h gens root jd l e,
-    files_ok gens /\ generated esc_prefix h gens root jd = Some l /\ In e l /\
+    files_ok gens /\ generated esc_prefix seal_edges h gens root jd = Some l /\ In e l /\
     ~ exists comps, g_path e = {| p_root := p_root jd; p_parts := p_parts jd ++ comps |}.
 Proof. exact inside_prefix_refuted. Qed.
 Print Assumptions C17_inside_prefix_refuted.
